@@ -473,22 +473,30 @@ func (P *Prog) checkCoercedValueStored(r *Result) {
 	R := P.roles
 	for _, pl := range R.Pipelines {
 		// only the pipeline that has a coercer parameter
+		// (the call may live in a phase helper of the pipeline: units, each under its call-site bindings)
 		var coercerCall *ssa.Call
-		eachInstr(pl, func(_ *ssa.BasicBlock, _ int, in ssa.Instruction) {
-			if c, ok := in.(*ssa.Call); ok {
-				if ci := callOf(c); ci.dynamic && P.roleOf(c.Call.Value) == "coercer" {
-					coercerCall = c
-				}
-			}
-		})
+		argIsData := false
+		for _, u := range P.nodeUnits(pl) {
+			u.with(func() {
+				eachInstr(u.fn, func(_ *ssa.BasicBlock, _ int, in ssa.Instruction) {
+					if c, ok := in.(*ssa.Call); ok {
+						if ci := callOf(c); ci.dynamic && P.roleOf(c.Call.Value) == "coercer" {
+							coercerCall = c
+							// argument is ctx.Data
+							_, f := loadOfField(cv(c.Call.Args[0]))
+							argIsData = f != nil && sameField(f, R.FData)
+						}
+					}
+				})
+			})
+		}
 		if coercerCall == nil {
 			continue
 		}
 		r.sawFunc(fname(pl))
 		c := fname(pl)
 		var problems []string
-		// argument is ctx.Data
-		if _, f := loadOfField(cv(coercerCall.Call.Args[0])); f == nil || !sameField(f, R.FData) {
+		if !argIsData {
 			problems = append(problems, "the coercer is not applied to the node's input (ctx.Data)")
 		}
 		// on the decision paths of the pipeline (helpers entered): the destination receives the coercer's result
@@ -1175,9 +1183,16 @@ func (P *Prog) checkCoercerResultTypes(r *Result, rule string) {
 
 // pureFromKey: v is computed from the loop key x by pure steps only (string operations, unexported
 // helpers and strings/unicode functions applied to it, a reflect.Type.FieldByName lookup of it and the
-// fields of that result) — no map or cache read, no field of another object.
+// fields of that result) — no map or cache read, no field of another object. Values that travel inside a
+// local struct (a `structField{name, meta}` returned by a resolving helper and handed to a method by value)
+// are followed field by field.
 func pureFromKey(v, x ssa.Value, depth int) bool {
-	if depth == 0 || v == nil {
+	return pureFromKeyF(v, x, depth*3, nil)
+}
+
+// pureFromKeyF: the component of v selected by the field path (outermost first) is pure in x.
+func pureFromKeyF(v, x ssa.Value, depth int, path []int) bool {
+	if depth <= 0 || v == nil {
 		return false
 	}
 	if v == x {
@@ -1185,81 +1200,90 @@ func pureFromKey(v, x ssa.Value, depth int) bool {
 	}
 	if substEnv != nil {
 		if sv, ok := substEnv[v]; ok && sv != v {
-			return pureFromKey(sv, x, depth-1)
+			return pureFromKeyF(sv, x, depth-1, path)
 		}
 	}
+	rec := func(w ssa.Value) bool { return pureFromKeyF(w, x, depth-1, path) }
 	switch t := v.(type) {
 	case *ssa.Const:
 		return true
 	case *ssa.UnOp:
 		if t.Op != token.MUL {
-			return pureFromKey(t.X, x, depth-1)
+			return rec(t.X)
 		}
 		switch a := t.X.(type) {
 		case *ssa.Alloc:
-			sts := storesTo(a)
-			if len(sts) == 0 {
-				return false
-			}
-			for _, st := range sts {
-				if !pureFromKey(st.Val, x, depth-1) {
-					return false
-				}
-			}
-			return true
+			return pureAllocF(a, x, depth-1, path)
 		case *ssa.FieldAddr:
 			if al, ok := a.X.(*ssa.Alloc); ok {
-				return pureFromKey(&ssa.UnOp{Op: token.MUL, X: al}, x, depth-1)
+				return pureAllocF(al, x, depth-1, append([]int{a.Field}, path...))
+			}
+			// a field of a nested local struct: &(&al.f).g
+			if fa2, ok := a.X.(*ssa.FieldAddr); ok {
+				if al, ok := fa2.X.(*ssa.Alloc); ok {
+					return pureAllocF(al, x, depth-1, append([]int{fa2.Field, a.Field}, path...))
+				}
 			}
 		}
 		return false
 	case *ssa.Field:
-		return pureFromKey(t.X, x, depth-1)
+		return pureFromKeyF(t.X, x, depth-1, append([]int{t.Field}, path...))
 	case *ssa.Phi:
 		for _, e := range t.Edges {
-			if !pureFromKey(e, x, depth-1) {
+			if !rec(e) {
 				return false
 			}
 		}
 		return true
 	case *ssa.BinOp:
-		return pureFromKey(t.X, x, depth-1) && pureFromKey(t.Y, x, depth-1)
+		return rec(t.X) && rec(t.Y)
 	case *ssa.ChangeType:
-		return pureFromKey(t.X, x, depth-1)
+		return rec(t.X)
 	case *ssa.Convert:
-		return pureFromKey(t.X, x, depth-1)
+		return rec(t.X)
 	case *ssa.Slice:
-		return pureFromKey(t.X, x, depth-1)
+		return rec(t.X)
 	case *ssa.Index:
 		if b, ok := t.X.Type().Underlying().(*types.Basic); ok && b.Info()&types.IsString != 0 {
-			return pureFromKey(t.X, x, depth-1)
+			return rec(t.X)
 		}
 		return false
 	case *ssa.Lookup:
 		if b, ok := t.X.Type().Underlying().(*types.Basic); ok && b.Info()&types.IsString != 0 {
-			return pureFromKey(t.X, x, depth-1)
+			return rec(t.X)
 		}
 		return false // a map read: a cache
 	case *ssa.Extract:
-		return pureFromKey(t.Tuple, x, depth-1)
+		if c, ok := t.Tuple.(*ssa.Call); ok {
+			if res, entered := pureHelperResult(c, t.Index, x, depth-1, path); entered {
+				return res
+			}
+		}
+		return rec(t.Tuple)
 	case *ssa.Call:
 		ci := callOf(t)
 		switch {
 		case ci.builtin != "":
 			for _, a := range t.Call.Args {
-				if !pureFromKey(a, x, depth-1) {
+				if !pureFromKeyF(a, x, depth-1, nil) {
 					return false
 				}
 			}
 			return true
 		case ci.invoke != nil && ci.invoke.Name() == "FieldByName" && strings.HasSuffix(t.Call.Value.Type().String(), "reflect.Type"):
-			return len(t.Call.Args) == 1 && pureFromKey(t.Call.Args[0], x, depth-1)
-		case ci.static != nil && (formulaHelper(ci.static) || isPkgFunc(ci.static, "strings") || isPkgFunc(ci.static, "unicode") || isPkgFunc(ci.static, "unicode/utf8")):
+			return len(t.Call.Args) == 1 && pureFromKeyF(t.Call.Args[0], x, depth-1, nil)
+		case ci.static != nil && formulaHelper(ci.static):
+			// a module helper is entered: what it returns, under the binding of its parameters
+			if res, entered := pureHelperResult(t, 0, x, depth-1, path); entered {
+				return res
+			}
+			return false
+		case ci.static != nil && (isPkgFunc(ci.static, "strings") || isPkgFunc(ci.static, "unicode") || isPkgFunc(ci.static, "unicode/utf8")):
 			if len(t.Call.Args) == 0 {
 				return false
 			}
 			for _, a := range t.Call.Args {
-				if !pureFromKey(a, x, depth-1) {
+				if !pureFromKeyF(a, x, depth-1, nil) {
 					return false
 				}
 			}
@@ -1267,6 +1291,120 @@ func pureFromKey(v, x ssa.Value, depth int) bool {
 		}
 	}
 	return false
+}
+
+// pureAllocF: the component `path` of the local variable al is pure in x: every store that can
+// define it (a store of the whole variable, or of the field the path starts with) stores a pure value;
+// a component that is never stored is the zero value. The variable must not escape.
+func pureAllocF(al *ssa.Alloc, x ssa.Value, depth int, path []int) bool {
+	if depth <= 0 || al.Referrers() == nil {
+		return false
+	}
+	n := 0
+	var walk func(addr ssa.Value, rest []int) bool
+	walk = func(addr ssa.Value, rest []int) bool {
+		for _, rf := range *addr.Referrers() {
+			switch u := rf.(type) {
+			case *ssa.Store:
+				if u.Addr != addr {
+					return false // the address itself is stored somewhere
+				}
+				if ld, isLd := u.Val.(*ssa.UnOp); isLd && ld.Op == token.MUL && ld.X == addr {
+					continue // `*t0 = *t0` (named results are copied onto themselves before a return)
+				}
+				n++
+				if !pureFromKeyF(u.Val, x, depth-1, rest) {
+					return false
+				}
+			case *ssa.FieldAddr:
+				if len(rest) > 0 && u.Field != rest[0] {
+					// another field: irrelevant, but it must not escape either
+					if !addrOnlyLoadedOrStored(u) {
+						return false
+					}
+					continue
+				}
+				if len(rest) == 0 {
+					// the whole variable is wanted: every field store matters
+					if !walk(u, nil) {
+						return false
+					}
+					continue
+				}
+				if !walk(u, rest[1:]) {
+					return false
+				}
+			case *ssa.UnOp, *ssa.DebugRef:
+			default:
+				return false
+			}
+		}
+		return true
+	}
+	if !walk(al, path) {
+		return false
+	}
+	return n > 0 || len(path) > 0
+}
+
+func addrOnlyLoadedOrStored(a ssa.Value) bool {
+	for _, rf := range *a.Referrers() {
+		switch u := rf.(type) {
+		case *ssa.Store:
+			if u.Addr != a {
+				return false
+			}
+		case *ssa.UnOp, *ssa.DebugRef:
+		case *ssa.FieldAddr:
+			if !addrOnlyLoadedOrStored(u) {
+				return false
+			}
+		default:
+			return false
+		}
+	}
+	return true
+}
+
+// pureHelperResult enters a module helper: result #idx of every return, under the binding of the
+// helper's parameters to the call's arguments, must be pure in x.
+func pureHelperResult(c *ssa.Call, idx int, x ssa.Value, depth int, path []int) (res, entered bool) {
+	callee := callOf(c).static
+	if callee == nil || !formulaHelper(callee) || depth <= 0 {
+		return false, false
+	}
+	saved := substEnv
+	env := map[ssa.Value]ssa.Value{}
+	for k, v2 := range saved {
+		env[k] = v2
+	}
+	for k, prm := range callee.Params {
+		if k < len(c.Call.Args) {
+			env[prm] = c.Call.Args[k]
+		}
+	}
+	substEnv = env
+	defer func() { substEnv = saved }()
+	n, all := 0, true
+	eachInstr(callee, func(_ *ssa.BasicBlock, _ int, in ssa.Instruction) {
+		rt, ok := in.(*ssa.Return)
+		if !ok {
+			return
+		}
+		vals, ok := retVals(rt)
+		if !ok {
+			return
+		}
+		if idx >= len(vals) {
+			all = false
+			return
+		}
+		n++
+		if !pureFromKeyF(vals[idx], x, depth-1, path) {
+			all = false
+		}
+	})
+	return n > 0 && all, true
 }
 
 // isIndexSegment: v is the path segment "[i]" of the loop variable iv: fmt.Sprintf("[%d]", iv),
